@@ -8,7 +8,7 @@ import time
 
 sys.path.insert(0, os.path.dirname(os.path.abspath(__file__)))
 import vlib
-from engines import hs_server, hs_client
+from engines import hs_server, hs_client, tcp_stream
 
 # property -> list of (engine module, operator prefixes that decide it)
 PROPS = {
@@ -19,9 +19,16 @@ PROPS = {
     "C14": [(hs_server, ["C14_"])],
     "C06": [(hs_server, ["C06_"]), (hs_client, ["C06_"])],
     "C08": [(hs_client, ["C08_"])],
+    "C12": [(tcp_stream.C12, ["C12_"])],
+    "C16": [(tcp_stream.C16, ["C16_"])],
 }
 
 ASSUME = {
+    "tcp-stream": [
+        "TLC results hold inside the stated constants (envelope sizes, read limits, MaxWF/MaxRF fault budgets, MaxMarks fragmentation points per read of TcpStreamMC.tla)",
+        "the connection under the transport returns only results a net.Conn may legally return; read limit below 512 bytes so that the decoder's request equals its budget",
+        "TLC, CommunityModules Json, the Go runtime and encoding/json are trusted",
+    ],
     "hs-client": [
         "TLC results hold inside the stated constants (raw-server alphabet of HsClient.tla, MaxIn, selector choices)",
         "selector and authenticator callbacks return normally",
